@@ -200,6 +200,7 @@ type XUpstream struct {
 	ParseErr     error
 	done         []uint64 // ids of completed exchanges on this connection
 	IgnoreHB     bool
+	Wedged       bool // sent a partial frame: stays silent from then on
 	Unknown      [][]byte // frames whose token is unknown (forwarded but never sent = fabrication)
 	InFlight     int      // requests received and not yet answered/abandoned (ping-pong oracle)
 	MaxInFlight  int
@@ -231,7 +232,7 @@ func (u *XUpstream) OnData(c *sim.Conn, b []byte) {
 			return
 		}
 		if f.Heartbeat {
-			if f.IsReq && !u.IgnoreHB {
+			if f.IsReq && !u.IgnoreHB && !u.Wedged {
 				ack := &XFrame{IsReq: false, Heartbeat: true, ID: f.ID, Status: u.Codec.SuccessStatus()}
 				c.Send(u.Codec.Build(ack))
 			}
@@ -274,8 +275,8 @@ func (u *XUpstream) OnData(c *sim.Conn, b []byte) {
 }
 
 func (u *XUpstream) send(c *sim.Conn, up *UpRec, fr []byte) {
-	if c.PeerDone() {
-		return
+	if c.PeerDone() || u.Wedged {
+		return // a peer that stalled in the middle of a frame never sends anything after it
 	}
 	up.Sent = append(up.Sent, fr)
 	c.Send(fr)
@@ -307,7 +308,9 @@ func (u *XUpstream) react(c *sim.Conn, r *ReqRec, up *UpRec) {
 		u.S.After(a.Delay, lab, func() {
 			f := u.ReplyBuilder(u, r, up)
 			f.ID = up.UpID + 1000003
-			c.Send(u.Codec.Build(f))
+			if !u.Wedged {
+				c.Send(u.Codec.Build(f))
+			}
 		})
 		u.S.After(a.Delay+a.Delay2, lab+":real", func() { u.send(c, up, mk()); finish() })
 	case "stale_id":
@@ -316,7 +319,9 @@ func (u *XUpstream) react(c *sim.Conn, r *ReqRec, up *UpRec) {
 			if len(u.done) > 0 {
 				f := u.ReplyBuilder(u, r, up)
 				f.ID = u.done[len(u.done)-1]
-				c.Send(u.Codec.Build(f))
+				if !u.Wedged {
+					c.Send(u.Codec.Build(f))
+				}
 			}
 		})
 		u.S.After(a.Delay+a.Delay2, lab+":real", func() { u.send(c, up, mk()); finish() })
@@ -328,7 +333,11 @@ func (u *XUpstream) react(c *sim.Conn, r *ReqRec, up *UpRec) {
 		u.S.Fault("up_half")
 		u.S.After(a.Delay, lab, func() {
 			fr := mk()
+			if u.Wedged || c.PeerDone() {
+				return
+			}
 			c.Send(fr[:len(fr)/2])
+			u.Wedged = true
 			if a.Kind == "half_close" {
 				c.PeerClose()
 			}
